@@ -5,17 +5,17 @@ CONSTANTS
   InitialPacked <- MCPacked
   WriterAdds <- MCAdds
   ReaderWants <- MCWants
-  MaxRetries = 3
-  SeekKey = "none"
+  MaxRetries = 0
+  SeekKey = "k4"
   ReaderPinned = FALSE
   PerPack = TRUE
   AllowCrash = FALSE
-  AllowPower = TRUE
+  AllowPower = FALSE
   AllowFault = FALSE
   UnlinkBeforeCommit = FALSE
   CommitBeforeFlush = FALSE
   NoFallback = FALSE
-  SkipPackFsync = TRUE
+  SkipPackFsync = FALSE
   RenameBeforeFsync = FALSE
 INVARIANT TypeOK
 INVARIANT ReadCorrect
@@ -23,3 +23,4 @@ INVARIANT Recoverable
 INVARIANT DurableVisible
 INVARIANT AfterPowerLoss
 INVARIANT WriteAcked
+INVARIANT SeekReadCorrect
